@@ -124,4 +124,25 @@ def loadFiles (post : Val → Out Val) : Val → List (List YNode) → Out Val
   | dict, [] => .ok dict
   | dict, f :: r => (loadDocs post dict f).bind fun dict' => loadFiles post dict' r
 
+/-! ### `processRawYaml` as written: a second `EnforceUnicity` closes the step
+
+```go
+dict, err = override.Merge(dict, cfg)
+dict, err = override.EnforceUnicity(dict)
+… schema.Validate(dict) … transform.Canonical(dict, …) … OmitEmpty(dict)      // `post`
+// Canonical transformation can reveal duplicates, typically as ports can be a range and conflict with an override
+dict, err = override.EnforceUnicity(dict)
+```
+The stages of other properties stay the parameter `post`; whatever they do, the step ends with `EnforceUnicity`. -/
+
+/-- the stages after the first `EnforceUnicity`, followed by the second one -/
+def postU (post : Val → Out Val) (v : Val) : Out Val := (post v).bind Unicity.enforceTop
+
+/-- the per-document step with both `EnforceUnicity` calls -/
+def docStepU (post : Val → Out Val) (dict : Val) (doc : YNode) : Out Val := docStep (postU post) dict doc
+
+def loadDocsU (post : Val → Out Val) : Val → List YNode → Out Val := loadDocs (postU post)
+
+def loadFilesU (post : Val → Out Val) : Val → List (List YNode) → Out Val := loadFiles (postU post)
+
 end CV.Reset
